@@ -1,6 +1,7 @@
 """C08 — cabinet tokens, pooled objects, shared fds (DESIGN §4 C08)."""
 from tbxlint.facts import extract, AnalysisBroken, MODULES, instantiate_unit
 from tbxlint import locks, q, own
+from rules import C08_replay
 
 CAB = 'tbox::cabinet::Cabinet<verif::Obj>'
 POOL = 'tbox::ObjectPool<verif::Obj>'
@@ -33,24 +34,10 @@ def r1(ctx, prog):
 
 
 def r2(ctx, prog):
-    ctx.rule('C08.R2', 'A12+A4: at/update/free agree: null-token test, pos < cells_.size() test and cell.id == token.id() test guard every access to the '
-                       'stored pointer; free zeroes the id and links the cell; alloc writes id and pointer; size() is the counter alloc/free step once', floor=10)
-    for m in ('at', 'update', 'free'):
-        f = prog.fn1(CAB + '::' + m)
-        accs = [st for st in f.stmts if st and st['k'] == 'MemberExpr' and st.get('n') == 'obj_ptr']
-        if not accs:
-            # delegating to at() for the pointer is fine (at() is checked itself) ...
-            if not any(c.get('fn') == 'at' and c.get('cls', '').startswith('tbox::cabinet::Cabinet<') for c in f.calls()):
-                raise AnalysisBroken('%s: no access to Cell::obj_ptr and no delegation to at()' % f.name)
-        for a in accs:
-            gs = f.cfg.controlling_branches(q.pt(f, a))
-            null_t = any(q.edge_holds(f, c, k, 'token.isNull()', '==', '0') for c, k, b in gs)
-            range_t = any(q.edge_holds(f, c, k, 'token.pos()', '<', 'cells_.size()') for c, k, b in gs)
-            id_t = any(q.edge_holds(f, c, k, 'cell.id', '==', 'token.id()') for c, k, b in gs)
-            ctx.ob('C08.R2', 'Cabinet::%s|guards' % m, null_t and range_t and id_t, 'obj_ptr access guarded by !isNull (%s), pos < size (%s), id match (%s)' % (null_t, range_t, id_t), where=f.loc(a['i']))
-        # the cell examined is the one at token.pos()
-        ats = [st for st in f.stmts if st and st['k'] in q.CALL_KINDS and (st.get('fn') == 'at' or st.get('op') == '[]') and 'obj' in st and f.path(st['obj']) == 'cells_']
-        ctx.ob('C08.R2', 'Cabinet::%s|cell-of-token' % m, bool(ats) and all(f.path(a['args'][0]) == 'token.pos()' for a in ats), 'cell looked up at token.pos()', where=f.loc(f.body))
+    ctx.rule('C08.R2', 'A12+A4: free releases by token (never by the stored value), zeroes the id and links the cell in front of the free list; alloc writes id and pointer; '
+                       'size() is the counter alloc/free step once; allocPos pops the free list or appends (the token guards themselves are decided by the replay C08.R10)', floor=5)
+    # (the null / range / id guards in front of every access to the stored pointer, and the cell being the one at token.pos(), used to be matched here by shape;
+    #  they are decided semantically — and independently of helpers — by the replay C08.R10)
     fr = prog.fn1(CAB + '::free')
     # ... but whether the entry is released must depend on the token only, never on the value that happens to be stored:
     # an entry holding nullptr (alloc() before update()) is a live entry
@@ -385,4 +372,5 @@ def run(ctx):
     ctx.guard(r7, ctx, prog)
     ctx.guard(r8, ctx, prog)
     ctx.guard(r9, ctx, prog)
+    ctx.guard(C08_replay.r10, ctx, prog, CAB)
     return prog
